@@ -48,6 +48,9 @@ def configs(tier, seed):
     # user_instances_only=False with a predicted instance next to the user instances (all frameworks must honour the flag alike)
     for cls in (("Centroid", "CenteredInstance") if tier == "quick" else ("Centroid", "CenteredInstance", "BottomUp")):
         out.append(dict(kind="framework", cls=cls, scale=1.0, is_rgb=False, user_only=False))
+    # frames smaller than max_height/max_width: the size matcher enlarges them (effective scale 2), keypoints / centroids must follow in every framework
+    for cls in (("Centroid", "SingleInstance") if tier == "quick" else ("Centroid", "SingleInstance", "BottomUp", "CenteredInstance")):
+        out.append(dict(kind="framework", cls=cls, scale=1.0, is_rgb=False, max_hw=16))
     # two videos whose labelled frames share a frame index (anything keyed by frame_idx alone confuses them)
     for cls in (("CenteredInstance",) if tier == "quick" else ("CenteredInstance", "Centroid", "SingleInstance")):
         out.append(dict(kind="framework", cls=cls, scale=1.0, is_rgb=False, two_videos=True))
@@ -116,7 +119,7 @@ def _compare(ex, rep, name, a, b, extract, T, xf, img_tol=False):
     discharge(ex, rep, name, And(*goals), on_sat=lambda m, env: (f"{name}", f"the two implementations can produce different values for '{name}'", extract(m, env)))
 
 
-def _falsify(ex, va, vb, img_tol, tries=12):
+def _falsify(ex, va, vb, img_tol, tries=6):
     import random, math
     from symx.xf import XF, eval_xf
     from symx.explorer import model_env
@@ -135,6 +138,21 @@ def _falsify(ex, va, vb, img_tol, tries=12):
             m = None
         if m is not None:
             cands.append((m, model_env(m)))
+    class _RandEnv(dict):
+        """variables the model does not mention are unconstrained on the path: give them random in-image values (flags: False) instead of 0"""
+
+        def __init__(self, base, salt):
+            super().__init__(base)
+            self.salt = salt
+
+        def __missing__(self, k):
+            if k.endswith("#nan") or k.startswith(("pres", "rev", "bad")):
+                v = False
+            else:
+                v = Fraction(random.Random(f"{k}:{self.salt}").randrange(2, 30), 4)
+            self[k] = v
+            return v
+    cands = [(m, _RandEnv(env, j)) for j, (m, env) in enumerate(cands)] + [(cands[0][0], _RandEnv(cands[0][1], 100 + j)) for j in range(4)]
     best = None  # the candidate with the LARGEST difference (tiny differences drown in float32 on replay)
     for m, env in cands:
         memo = {}
@@ -321,7 +339,7 @@ def _build(cfg, labels, np_chunks):
     cls = cfg["cls"] + "Dataset"
     kw = {"BottomUpDataset": dict(confmap_head_config=cm, pafs_head_config=paf), "CenteredInstanceDataset": dict(confmap_head_config=cm, crop_hw=(4, 4)),
           "CentroidDataset": dict(confmap_head_config=cm), "SingleInstanceDataset": dict(confmap_head_config=cm)}[cls]
-    return getattr(cd, cls)(labels=labels, data_config=dc, max_stride=4, scale=cfg["scale"], max_hw=(8, 8), np_chunks=np_chunks, np_chunks_path=_chunk_dir() if np_chunks else None, **kw)
+    return getattr(cd, cls)(labels=labels, data_config=dc, max_stride=4, scale=cfg["scale"], max_hw=(cfg.get("max_hw", 8),) * 2, np_chunks=np_chunks, np_chunks_path=_chunk_dir() if np_chunks else None, **kw)
 
 
 def _streaming_samples(cfg, labels):
@@ -334,16 +352,17 @@ def _streaming_samples(cfg, labels):
     chunks = []
     uo = cfg.get("user_only", True)
     mi = get_max_instances(labels)
+    MHW = (cfg.get("max_hw", 8),) * 2
     for lf in labels:
         x = (lf, 0)
         if cls == "BottomUp":
-            chunks.append(gc.bottomup_data_chunks(x, dc, mi, (8, 8), uo, cfg["scale"]))
+            chunks.append(gc.bottomup_data_chunks(x, dc, mi, MHW, uo, cfg["scale"]))
         elif cls == "Centroid":
-            chunks.append(gc.centroid_data_chunks(x, dc, mi, 0, (8, 8), uo, cfg["scale"]))
+            chunks.append(gc.centroid_data_chunks(x, dc, mi, 0, MHW, uo, cfg["scale"]))
         elif cls == "SingleInstance":
-            chunks.append(gc.single_instance_data_chunks(x, dc, (8, 8), uo, cfg["scale"]))
+            chunks.append(gc.single_instance_data_chunks(x, dc, MHW, uo, cfg["scale"]))
         else:
-            res = gc.centered_instance_data_chunks(x, dc, mi, (4, 4), 0, (8, 8), uo, cfg["scale"])
+            res = gc.centered_instance_data_chunks(x, dc, mi, (4, 4), 0, MHW, uo, cfg["scale"])
             chunks.extend(res if isinstance(res, list) else list(res))
     real_get = sd.ld.StreamingDataset.__getitem__
     sd.ld.StreamingDataset.__getitem__ = lambda self, i: dict(chunks[i])
